@@ -193,6 +193,9 @@ def _run_case(case):
         elif case.get("keep_last_line") and cur_row_before < len(tape) and tape[cur_row_before] != tape_before[cur_row_before]:
             # keep_last_line: "Causes the cursor to be moved down one line on leaving context" - the line the cursor was on stays
             res.viol("last_line_not_kept_on_exit", line=show(tape_before[cur_row_before]), now=show(tape[cur_row_before]), case=case)
+        elif not case.get("keep_last_line") and cur_row != cur_row_before:
+            # without keep_last_line nothing is kept: the cursor stays on its row (which is cleared with everything below)
+            res.viol("cursor_row_moved_on_exit_without_keep_last_line", before=cur_row_before, after=cur_row, case=case)
         res.evals = max(1, nsteps)
     finally:
         pty.close()
